@@ -122,6 +122,9 @@ func c06Run(f []string) string {
 	if ans, ok := c06RunInflate(f); ok {
 		return ans
 	}
+	if ans, ok := c06RunDispatch(f); ok {
+		return ans
+	}
 	if ans, ok := c06RunFault(f); ok {
 		return ans
 	}
@@ -475,6 +478,7 @@ func c06Gen(r *Rand, tier string) []string {
 	out = append(out, c06GenGlobCases(r, tier)...)
 	out = append(out, c06GzipGenCases(r, tier)...)
 	out = append(out, c06InflateGenCases(r, tier)...)
+	out = append(out, c06DispatchGenCases(r, tier)...)
 	out = append(out, c06FaultGenCases(r, tier)...)
 	for i := 0; i < nGlob; i++ {
 		out = append(out, c06GenGlob(r))
@@ -493,6 +497,7 @@ func c06Stats(cases []string) map[string]int {
 		c06GlobStats(st, f)
 		c06GzipStats(st, f)
 		c06InflateStats(st, f)
+		c06DispatchStats(st, f)
 		c06FaultStats(st, f)
 		switch f[0] {
 		case "glob":
